@@ -69,6 +69,22 @@ Results(t, sl, sc, el, ec, new) ==
       THEN {Splice(t, o, o, new) : o \in Offsets(t, sl, sc)}       \* one position resolves one way
       ELSE UNION {{Splice(t, so, eo, new) : eo \in {x \in Offsets(t, el, ec) : x >= so}} : so \in Offsets(t, sl, sc)}
 
+\* The optional (deprecated) rangeLength of a change: the UTF-16 length of the replaced span.  A client that sends it
+\* sends what its range says; the range decides and the result is the same with and without it.  Defined where both
+\* ends of the range resolve one way (-1 otherwise: the driver then sends the change without it).
+RECURSIVE Sum16(_, _, _)
+Sum16(t, a, b) == IF a >= b THEN 0 ELSE U16(t[a + 1]) + Sum16(t, a + 1, b)
+Len16(t) == Sum16(t, 0, Len(t))
+RangeLength(t, sl, sc, el, ec) ==
+    IF ~WellFormed(sl, sc, el, ec) THEN -1
+    ELSE LET S == Offsets(t, sl, sc)
+             E == Offsets(t, el, ec)
+         IN IF Cardinality(S) = 1 /\ Cardinality(E) = 1
+              THEN LET so == CHOOSE x \in S : TRUE
+                       eo == CHOOSE x \in E : TRUE
+                   IN IF so <= eo THEN Sum16(t, so, eo) ELSE -1
+              ELSE -1
+
 VARIABLES c, done
 vars == <<c, done>>
 
@@ -78,6 +94,7 @@ Init == c \in Cases /\ done = FALSE
 Run == /\ ~done /\ done' = TRUE /\ UNCHANGED c
        /\ Emit => PrintT(ToJson([t |-> c.t, sl |-> c.sl, sc |-> c.sc, el |-> c.el, ec |-> c.ec, new |-> c.new,
                                  any |-> ~WellFormed(c.sl, c.sc, c.el, c.ec),
+                                 rl |-> RangeLength(c.t, c.sl, c.sc, c.el, c.ec),
                                  res |-> SetToSeq(Results(c.t, c.sl, c.sc, c.el, c.ec, c.new))]))
 Next == Run
 Spec == Init /\ [][Next]_vars
@@ -98,6 +115,9 @@ NoOp == (WF /\ c.sl = c.el /\ c.sc = c.ec /\ c.new = <<>>) => R = {c.t}
 \* surrogate pair could resolve to different neighbours and delete the character.)
 \* replacing the whole document (range far past the end) yields exactly the new text
 Whole == (WF /\ c.sl = 0 /\ c.sc = 0 /\ c.el >= NumLines(c.t)) => R = {c.new}
+\* the replaced span has the length the client would report: the result is that much shorter, plus the new text
+RangeLengthAgrees == LET rl == RangeLength(c.t, c.sl, c.sc, c.el, c.ec) IN
+                     rl >= 0 => \A r \in R : Len16(r) = Len16(c.t) - rl + Len16(c.new)
 \* positions past the end clamp: they behave like the end position
 ClampLine == (WF /\ c.sl >= NumLines(c.t)) => R = {c.t \o c.new}
 =============================================================================
